@@ -598,4 +598,111 @@ theorem compile_sound : ∀ (f : Nat) (p req : Bool) (a : Att) (v : Val),
               exact ih true fl.2.1 fl.2.2 _ (hok fl hfl) (typed_field ht hfl hfv) (collOK_field hc hfl hfv) hs
       | _ => simp [typed] at ht
 
+/-! ### pruning: `hasValidations` (with `Pointer = true`: some attribute reachable from the type carries a
+validation) decides whether `Validate<Type>` is called at all -/
+
+def rulesEmpty (r : Rules) : Bool :=
+  !r.hasEnum && !r.format && !r.pattern && r.min.isNone && r.max.isNone && r.exMin.isNone && r.exMax.isNone &&
+  r.minLen.isNone && r.maxLen.isNone
+
+/-- no attribute down to depth `f` carries a validation (no keyword, no required attribute) -/
+def noRules : Nat → Att → Bool
+  | 0, _ => true
+  | _ + 1, .prim _ r => rulesEmpty r
+  | f + 1, .arr r e => rulesEmpty r && noRules f e
+  | f + 1, .map r k e => rulesEmpty r && noRules f k && noRules f e
+  | f + 1, .obj fields => fields.all (fun fl => !fl.2.1 && noRules f fl.2.2)
+
+theorem lenChecks_empty {r : Rules} (h : rulesEmpty r = true) : lenChecks r = [] := by
+  simp only [rulesEmpty, Bool.and_eq_true, Option.isNone_iff_eq_none] at h
+  simp [lenChecks, h.1.2, h.2]
+
+theorem primChecks_empty {r : Rules} (h : rulesEmpty r = true) (k : Kind) (g : Bool) : primChecks k r g = [] := by
+  have hl := lenChecks_empty h
+  simp only [rulesEmpty, Bool.and_eq_true, Option.isNone_iff_eq_none, Bool.not_eq_true'] at h
+  obtain ⟨⟨⟨⟨⟨⟨⟨⟨h1, h2⟩, h3⟩, h4⟩, h5⟩, h6⟩, h7⟩, h8⟩, h9⟩ := h
+  cases k <;> simp [primChecks, rangeChecks, runeChecks, hl, h1, h2, h3, h4, h5, h6, h7, h8, h9]
+
+theorem finishAttr_nil (p req : Bool) (a : Att) : finishAttr p req a [] = [] := by simp [finishAttr]
+
+/-- a type without validations needs no code: the generator emits nothing for it … -/
+theorem no_rules_no_code : ∀ (f : Nat) (p req : Bool) (a : Att), noRules f a = true → compile f p req a = [] := by
+  intro f
+  induction f with
+  | zero => intro p req a _; simp [compile]
+  | succ f ih =>
+    intro p req a h
+    cases a with
+    | prim k r => simp only [compile]; exact primChecks_empty (by simpa [noRules] using h) k _
+    | arr r e =>
+      simp only [noRules, Bool.and_eq_true] at h
+      simp [compile, lenChecks_empty h.1, ih _ true e h.2, finishAttr_nil]
+    | map r k e =>
+      simp only [noRules, Bool.and_eq_true] at h
+      simp [compile, lenChecks_empty h.1.1, ih false true k h.1.2, ih false true e h.2, finishAttr_nil]
+    | obj fields =>
+      simp only [noRules, List.all_eq_true, Bool.and_eq_true, Bool.not_eq_true'] at h
+      simp only [compile, List.append_eq_nil_iff, List.map_eq_nil_iff, List.filter_eq_nil_iff, List.flatMap_eq_nil_iff]
+      constructor
+      · intro fl hfl; simp [(h fl hfl).1]
+      · intro fl hfl; simp [ih p fl.2.1 fl.2.2 (h fl hfl).2, finishAttr_nil]
+
+theorem lengthViol_empty {r : Rules} (h : rulesEmpty r = true) (n : Nat) : lengthViol r n = [] := by
+  simp only [rulesEmpty, Bool.and_eq_true, Option.isNone_iff_eq_none] at h
+  simp [lengthViol, h.1.2, h.2]
+
+/-- … and nothing is lost: every well-typed value satisfies it. -/
+theorem no_rules_no_violations : ∀ (f : Nat) (a : Att) (v : Val), noRules f a = true → typed f a v = true →
+    violations f a v = [] := by
+  intro f
+  induction f with
+  | zero => intro a v _ _; simp [violations]
+  | succ f ih =>
+    intro a v h ht
+    cases a with
+    | prim k r =>
+      have hr : rulesEmpty r = true := by simpa [noRules] using h
+      have hl := lengthViol_empty hr
+      simp only [rulesEmpty, Bool.and_eq_true, Option.isNone_iff_eq_none, Bool.not_eq_true'] at hr
+      obtain ⟨⟨⟨⟨⟨⟨⟨⟨h1, h2⟩, h3⟩, h4⟩, h5⟩, h6⟩, h7⟩, h8⟩, h9⟩ := hr
+      cases k with
+      | boolean => cases v <;> simp_all [typed, violations]
+      | number i lo hi =>
+        cases v <;> simp [typed] at ht
+        rw [violations_num]; simp [ht, h1, rangeViol, h4, h5, h6, h7]
+      | string =>
+        cases v <;> simp [typed] at ht
+        simp [violations, h1, h2, h3, hl]
+      | bytes =>
+        cases v <;> simp [typed] at ht
+        simp [violations, hl]
+    | arr r e =>
+      cases v <;> simp [typed] at ht
+      rename_i vs
+      simp only [noRules, Bool.and_eq_true] at h
+      simp only [violations, lengthViol_empty h.1, List.nil_append, List.flatMap_eq_nil_iff]
+      intro e' he'; exact ih e e' h.2 (ht e' he')
+    | map r k e =>
+      cases v <;> simp [typed] at ht
+      rename_i kvs
+      simp only [noRules, Bool.and_eq_true] at h
+      simp only [violations, lengthViol_empty h.1.1, List.nil_append, List.flatMap_eq_nil_iff, List.append_eq_nil_iff]
+      intro kv hkv
+      exact ⟨ih k kv.1 h.1.2 (ht kv.1 kv.2 hkv).1, ih e kv.2 h.2 (ht kv.1 kv.2 hkv).2⟩
+    | obj fields =>
+      cases v with
+      | obj vals =>
+        simp only [noRules, List.all_eq_true, Bool.and_eq_true, Bool.not_eq_true'] at h
+        rw [violations_obj, List.flatMap_eq_nil_iff]
+        intro fl hfl
+        cases hfv : present (fieldVal fl.1 vals) with
+        | false =>
+          have habs : fieldVal fl.1 vals = .absent := by
+            cases h' : fieldVal fl.1 vals <;> simp_all [present]
+          rw [specField_absent habs]; simp [(h fl hfl).1]
+        | true =>
+          rw [specField_present hfv]
+          exact ih fl.2.2 _ (h fl hfl).2 (typed_field ht hfl hfv)
+      | _ => simp [typed] at ht
+
 end GoaVerif.ValCode
